@@ -129,6 +129,9 @@ def _derives_from(e, src_txt: str, defs, depth=0, seen=()) -> str:
     if isinstance(e, ast.IfExp):
         rs = [_derives_from(e.body, src_txt, defs, depth + 1, seen), _derives_from(e.orelse, src_txt, defs, depth + 1, seen)]
         return "no" if "no" in rs else "unknown" if "unknown" in rs else "yes"
+    if isinstance(e, ast.BoolOp):
+        rs = [_derives_from(x, src_txt, defs, depth + 1, seen) for x in e.values]
+        return "no" if "no" in rs else "unknown" if "unknown" in rs else "yes"
     if isinstance(e, ast.List):
         return "yes" if not e.elts else "no"
     if isinstance(e, ast.BinOp) and isinstance(e.op, (ast.Add, ast.Mult)):
@@ -221,6 +224,8 @@ def r10_3(ctx: Ctx):
                 why = f"sort direction `{norm(rev)}` is not a constant"
         elif canon(srt, defs) == tgt:
             status, why = VIOLATION, "keeps a prefix of the unsorted candidate list: not the best ones"
+    elif isinstance(v, ast.ListComp) and len(v.generators) == 1 and len(v.generators[0].ifs) == 1 and isinstance(v.generators[0].ifs[0], ast.Compare) and isinstance(v.generators[0].ifs[0].ops[0], (ast.Gt, ast.Lt)) and any(isinstance(x, ast.Call) and norm(x.func) == "sorted" for side in (v.generators[0].ifs[0].left, v.generators[0].ifs[0].comparators[0]) for x in ast.walk(ast.parse(canon(side, defs), mode="eval"))):
+        status, why = VIOLATION, f"`{norm(v)[:80]}` keeps the candidates STRICTLY better than a pivot of the sorted list: candidates tied with the pivot are dropped too, so fewer than min(limit, available) can survive"
     elif isinstance(v, ast.Subscript) and isinstance(v.slice, ast.Slice) and v.slice.upper is None and v.slice.lower is not None and isinstance(v.value, ast.Call) and norm(v.value.func) == "sorted":
         # sorted(...)[-limit:]  — the best `limit` of an ascending sort
         rev = next((k.value for k in v.value.keywords if k.arg == "reverse"), None)
@@ -359,7 +364,14 @@ def r10_6(ctx: Ctx):
             e = sd[0]
             if isinstance(e, ast.Call) and norm(e.func) in ("np.array", "np.asarray", "np.vstack", "np.stack") and e.args:
                 e = e.args[0]
-            if isinstance(e, ast.ListComp) and len(e.generators) == 2:
+            hops = 0
+            while isinstance(e, ast.Name) and len(defs.get(e.id, [])) == 1 and hops < 3:
+                e = defs[e.id][0]
+                hops += 1
+            if isinstance(e, ast.ListComp) and len(e.generators) == 1 and isinstance(e.generators[0].target, ast.Name) and canon(e.generators[0].iter, defs) in (f"{tree_p}.levels[{d}.level+1]", f"{tree_p}._levels[{d}.level+1]") and canon(e.elt) in (f"{e.generators[0].target.id}._sprout_seed.genome", f"{e.generators[0].target.id}.sprout_seed.genome"):
+                # every deme of the target level is a child of some deme on the parent's level
+                st_s = OK if not e.generators[0].ifs else VIOLATION
+            elif isinstance(e, ast.ListComp) and len(e.generators) == 2:
                 g1, g2 = e.generators
                 lvl_ok = canon(g1.iter, defs) in (f"{tree_p}.levels[{d}.level]", f"{tree_p}._levels[{d}.level]")
                 shape = isinstance(g1.target, ast.Name) and isinstance(g2.target, ast.Name) and canon(g2.iter) == f"{g1.target.id}.children" and canon(e.elt) in (f"{g2.target.id}._sprout_seed.genome", f"{g2.target.id}.sprout_seed.genome")
